@@ -255,6 +255,43 @@ func VT_C03_CollectionChurnOneId() {
 	vt.Reach("done")
 }
 
+// A Value with an equivalence (exact or none) that is moved away from and back to the value the subscriber was seeded
+// with: the last event delivered before the sentinel is the final value (the write back is not mistaken for a duplicate).
+func VT_C03_ValueReturnsToSeededValue() {
+	var opts []Option
+	if vt.Choose("noDuplicates", 2) == 1 {
+		opts = append(opts, WithNoDuplicates())
+	}
+	a, b := vt.Int32("a"), vt.Int32("b")
+	vt.Assume(vt.And(a != vtSentinel, b != vtSentinel))
+	v := NewValue(append(opts, WithInitialValue(&T3{DefaultInt32: a}))...)
+	ctx, cancel := context.WithCancel(context.Background())
+	ch := v.Pull(ctx, WithBackpressure(vt.Choose("backpressure", 2) == 1))
+	var last int32
+	n := 0
+	seen := make(chan struct{})
+	go func() {
+		for e := range ch {
+			x := e.Value.(*T3).DefaultInt32
+			if x == vtSentinel {
+				close(seen)
+				continue
+			}
+			last = x
+			n++
+		}
+	}()
+	v.Set(&T3{DefaultInt32: b})
+	vt.Settle() // the reader keeps up: b is delivered (when it differs) before the write back
+	v.Set(&T3{DefaultInt32: a})
+	vt.Settle()
+	v.Set(&T3{DefaultInt32: vtSentinel})
+	<-seen
+	vt.Assert(last == a, "last-delivered-value-is-the-final-value-after-returning-to-the-seeded-one")
+	cancel()
+	vt.Reach("done")
+}
+
 // A Delete and an Add of the same id by two writers, subscriber with backpressure that keeps receiving, subscribed
 // at any moment: no event overtakes a later commit (the REMOVE never arrives after the ADD of the re-created item).
 func VT_C03_CollectionDeleteVsAdd() {
